@@ -175,12 +175,13 @@ def S12(inp, n):
     a.push(99, _doApply=True)
     cons[0].append(98, _doApply=True)
     cons[1].add(3, _doApply=True)
+    put(a, 'raftLastApplied', p.commit)          # ... and its applied index moves on: the trim follows the snapshot, not the applied index
     _, exc1 = guard(getattr(a, so.P + 'tryLogCompaction'))
     q = so.post_state(a)
     cl['trim_no_exception'] = exc1 is None
     cl['trim_keeps_predecessor_and_above'] = And(Eq(q.log[0][1], p.applied - 1), Eq(q.last, p.last))
     cl['trimmed_entries_are_the_old_ones'] = And([so.has_entry(p.log, e[1], e[2]) for e in q.log])
-    cl['indices_untouched'] = And(Eq(q.commit, p.commit), Eq(q.applied, p.applied))
+    cl['indices_untouched'] = And(Eq(q.commit, p.commit), Eq(q.applied, p.commit))
     # load on another node
     b, trb, consb = _mk(inp, 'z', ('a', 'b', 'q'), clock, dyn)      # q is not in the snapshot's member set
     get(b, 'serializer')._Serializer__inMemorySerializedData = image
